@@ -484,7 +484,11 @@ func (p *parser) parseWorkflowCallEvent(pos *Pos, n *yaml.Node) *WorkflowCallEve
 					case "required":
 						input.Required = p.parseBool(attr.val)
 					case "default":
-						input.Default = p.parseString(attr.val, true)
+						// `default:` with null value is the same as no default value. This is also how the
+						// input is handled when the workflow is read as a callee of a workflow call
+						if !isNull(attr.val) {
+							input.Default = p.parseString(attr.val, true)
+						}
 					case "type":
 						switch attr.val.Value {
 						case "boolean":
